@@ -979,6 +979,11 @@ def cases_firewall(tier):
                         fw = {info['src']: [fs, fr if both else None], info['dst']: [fs if both else None, fr]}
                         evs = [ev(r, [k], None, None, None, ['ret', 'R%d' % k]) for k in range(n)]
                         yield {'w': 'rt', 'fam': 'firewall', 'events': evs, 'fw': fw}
+                        if n == 1:
+                            # the predicates must be consulted whatever the event carries: arguments that look like a result
+                            # packet ('"value":'), that contain the packet delimiter, that are large
+                            for a, kw in (([{'value': 3}], {'value': 1}), (['x~~~y'], {'sep': 'a~~~b', 'value': None}), ([{'$pad': 5000}], None)):
+                                yield {'w': 'rt', 'fam': 'firewall', 'events': [ev(r, a, kw, None, None, ['ret', 'R0'])], 'fw': fw}
                         if n == 2 and tier == 'thorough':
                             evs = [ev(r, [0]), ev(r ^ 1, [1], None, None, None, ['gen', 'G', 1])]
                             yield {'w': 'rt', 'fam': 'firewall', 'events': evs, 'fw': fw}
